@@ -81,7 +81,7 @@ STAGES = {
     "C04": [S("cuts", "^TestC04$", quick=40, thorough=60, shards=(6, 16), timeout=("15m", "120m"), shrinktime="60s"),
             S("transient", "^TestC04Transient$", quick=12, thorough=60, shards=(4, 16), timeout=("15m", "120m"), shrinktime="60s"),
             S("big", "^TestC04Big$", quick=25, thorough=400, shards=(6, 16), timeout=("15m", "120m"), shrinktime="60s")],
-    "C05": [S("regress", "^TestC05Regress$"),
+    "C05": [S("regress", "^TestC05Regress$|^TestC05StaleHandleRace$"),
             S("concurrent", "^TestC05$", quick=150, thorough=2500, shards=(6, 16), timeout=("15m", "90m")),
             S("concurrent-race", "^TestC05$", quick=40, thorough=800, shards=(4, 16), race=True, timeout=("15m", "90m"))],
     "C06": [S("codes", "^TestC06$", shards=(8, 16)),
